@@ -574,7 +574,10 @@ def calculate_1d_bins(
         if kwargs.pop("check_nan", True):
             if np.any(np.isnan(array)):
                 raise ValueError("Cannot calculate bins in presence of NaN's.")
-        if kwargs.get("range"):  # TODO: re-consider the usage of this parameter
+        if kwargs.get("range") and not kwargs.get("adaptive"):
+            # TODO: re-consider the usage of this parameter
+            # (Adaptive bins are to cover all the data: what they left in underflow / overflow
+            # could not be put into its bin when they grow later.)
             array = array[(array >= kwargs["range"][0]) & (array <= kwargs["range"][1])]
     if _ is None:
         bin_count = (
